@@ -106,8 +106,33 @@ class SymMath:
             raise core.Inconclusive("math.pow of symbolic values")
         return math.pow(b, e)
 
+    def sqrt(self, x):
+        """sqrt of a symbolic real: an uninterpreted function constrained to be what every conclusion may rely on -
+        non-negative, zero exactly at zero, strictly increasing on the arguments seen on this path (so every result
+        proved with it holds for the real square root; nothing is claimed about its values)"""
+        import math
+        x = core.unwrap0(x)
+        if isinstance(x, core.SLog):
+            raise core.Inconclusive("sqrt of a log-domain value")
+        if not isinstance(x, Sym):
+            return math.sqrt(x)
+        ctx = core.cur()
+        zx = core.zn(x)
+        if z3.is_int(zx):
+            zx = z3.ToReal(zx)
+        f = z3.Function("sqrt_uf", z3.RealSort(), z3.RealSort())
+        r = f(zx)
+        # 0 at 0, and the elementary envelope min(x, 1) <= sqrt(x) <= (x + 1) / 2
+        ctx.assume(z3.Implies(zx >= 0, z3.And(r >= 0, (r == 0) == (zx == 0), r <= (zx + 1) / 2, r >= z3.If(zx <= 1, zx, z3.RealVal(1)))))
+        seen = ctx.state.setdefault("sqrt_terms", [])
+        for zy, ry in seen:
+            ctx.assume(z3.And(z3.Implies(zx < zy, r < ry), z3.Implies(zx > zy, r > ry)))
+        seen.append((zx, r))
+        return core.lift(r)
+
     def floor(self, x):
         import math
+        x = core.unwrap0(x)
         if isinstance(x, Sym):
             z = core.zn(x)
             return x if z3.is_int(z) else core.lift(z3.ToInt(z))
@@ -115,6 +140,7 @@ class SymMath:
 
     def ceil(self, x):
         import math
+        x = core.unwrap0(x)
         if isinstance(x, Sym):
             z = core.zn(x)
             return x if z3.is_int(z) else core.lift(-z3.ToInt(-z))
